@@ -1,4 +1,7 @@
 -- root of the `Librfn` library: everything a clean `lake build` must check
+import Librfn.Props.C01
+import Librfn.Props.C02
+import Librfn.Props.C03
 import Librfn.Props.C16
 import Librfn.Props.C17
 import Librfn.Props.C19
